@@ -235,34 +235,58 @@ func fullMatch(expr string, name string) bool {
 	return re.MatchString(name)
 }
 
-// admission of an account by the list of specifiers: yes / no / undecided.  The
-// only undecided form is `wallet/` (empty account expression), which the
-// documentation does not define and which the two managers read differently
-// (dirk: whole wallet, pinned by its unit test; wallet: nothing).
+// admission of an account by the list of specifiers: yes / no / undecided.
+// Undecided are
+//   - the form `wallet/` (empty account expression), which the documentation
+//     does not define and which the two managers read differently (dirk: whole
+//     wallet, pinned by its unit test; wallet: nothing);
+//   - an account of another wallet whose wallet name is fully matched by the
+//     wallet part of a specifier read as a regular expression (and whose name the
+//     account expression matches in full): "fully matches one of the configured
+//     account specifiers" can be read with the whole specifier as one expression,
+//     so such an account may be used or not.
 const (
 	admitNo = iota
 	admitUndecided
 	admitYes
 )
 
-func admission(specs []string, a *Acct) int {
-	res := admitNo
+// walletPartRegexMatches: the wallet part of the specifier is not the account's
+// wallet name but, read as a regular expression, matches it in full.
+func walletPartRegexMatches(w string, a *Acct) bool {
+	if w == a.Wallet || regexp.QuoteMeta(w) == w {
+		return false
+	}
+	re, err := regexp.Compile(`^(?:` + w + `)$`)
+	return err == nil && re.MatchString(a.Wallet)
+}
+
+func admissionWhy(specs []string, a *Acct) (int, string) {
+	res, why := admitNo, ""
 	for _, s := range specs {
 		w, expr, hasExpr := splitSpec(s)
 		if w != a.Wallet {
+			if walletPartRegexMatches(w, a) && (!hasExpr || expr == "" || fullMatch(expr, a.Name)) && res < admitUndecided {
+				res, why = admitUndecided, "wallet-part-regex-ambiguous"
+			}
 			continue
 		}
 		switch {
 		case !hasExpr:
-			return admitYes
+			return admitYes, ""
 		case expr == "":
 			if res < admitUndecided {
-				res = admitUndecided
+				res, why = admitUndecided, "trailing-slash-undecided"
 			}
 		case fullMatch(expr, a.Name):
-			return admitYes
+			return admitYes, ""
 		}
 	}
+	return res, why
+}
+
+func admission(specs []string, a *Acct) int {
+	res, _ := admissionWhy(specs, a)
 	return res
 }
 
@@ -273,61 +297,21 @@ func admission(specs []string, a *Acct) int {
 func overAdmitSignature(specs []string, a *Acct) (string, string) {
 	path := a.Path()
 	trim := func(expr string) string { return strings.TrimSuffix(strings.TrimPrefix(expr, "^"), "$") }
-	type cause struct{ sig, spec string }
-	var causes []cause
-	// (1) The wallet read as a name, the account expression pasted without a group.
-	for _, s := range specs {
-		w, expr, hasExpr := splitSpec(s)
-		if !hasExpr || expr == "" || !strings.Contains(expr, "|") {
-			continue
-		}
-		if re, err := regexp.Compile("^" + regexp.QuoteMeta(w) + "/" + trim(expr) + "$"); err == nil && re.MatchString(path) {
-			causes = append(causes, cause{"overadmit:alternation-not-grouped", s})
-			break
-		}
-	}
-	// (2) The account expression grouped, the wallet read as an expression.
-	for _, s := range specs {
-		w, expr, hasExpr := splitSpec(s)
-		if w == a.Wallet || regexp.QuoteMeta(w) == w {
-			continue
-		}
-		if !hasExpr {
-			expr = ".*"
-		}
-		if _, err := regexp.Compile(trim(expr)); err != nil {
-			continue
-		}
-		if re, err := regexp.Compile("^" + w + "/(?:" + trim(expr) + ")$"); err == nil && re.MatchString(path) {
-			causes = append(causes, cause{"overadmit:wallet-name-read-as-regex", s})
-			break
-		}
-	}
-	// (3) Both at once (either repair removes it).
-	if len(causes) == 0 {
+	for _, quote := range []bool{true, false} {
 		for _, s := range specs {
 			w, expr, hasExpr := splitSpec(s)
 			if !hasExpr || expr == "" || !strings.Contains(expr, "|") {
 				continue
 			}
+			if quote {
+				w = regexp.QuoteMeta(w)
+			}
 			if re, err := regexp.Compile("^" + w + "/" + trim(expr) + "$"); err == nil && re.MatchString(path) {
-				causes = append(causes, cause{"overadmit:alternation-not-grouped", s}, cause{"overadmit:wallet-name-read-as-regex", s})
-				break
+				return "overadmit:alternation-not-grouped", s
 			}
 		}
 	}
-	if len(causes) == 0 {
-		return "overadmit", ""
-	}
-	// Several shapes may explain the same account; report it under one that is a
-	// listed open finding if there is one, so that repairing one of them does not
-	// turn the other's cases into fresh violations.
-	for _, c := range causes {
-		if ev.IsKnown(c.sig) {
-			return c.sig, c.spec
-		}
-	}
-	return causes[0].sig, causes[0].spec
+	return "overadmit", ""
 }
 
 func unlockable(c *Case, a *Acct) bool {
@@ -563,7 +547,11 @@ func runAndJudge(t ev.TB, c *Case, w *world) *stats {
 				j.violation("underadmit", "%s: account %s is matched in full by a specifier of %q (and is offered/unlockable) but is not in use", where, a.Path(), c.Specs)
 			}
 			if adm[a.ID] == admitUndecided {
-				st.label("trailing-slash-undecided")
+				_, why := admissionWhy(c.Specs, a)
+				st.label(why)
+				if knownObs[a.ID] {
+					st.label(why + ":in-use")
+				}
 			}
 		}
 		if len(knownObs) == 0 {
